@@ -19,7 +19,7 @@ from vlib.core import safe_repr
 PROP = "C13"
 LEVEL = "exploration"
 EVAL_COUNTER = "ops_judged"
-GATES = ["ops_judged", "ops_raised_expected", "ops_ok", "views_compared", "dup_key_rejections", "type_rejections", "negative_index_writes", "constructions_judged", "construction_rejections_expected", "keyfaults_judged"]
+GATES = ["ops_judged", "ops_raised_expected", "ops_ok", "views_compared", "dup_key_rejections", "type_rejections", "negative_index_writes", "constructions_judged", "construction_rejections_expected", "keyfaults_judged", "iteration_under_mutation_cases"]
 RULE = (
     "operation sequences over KeyedLists built from item universes of k keys x p payloads (self-keyed strings/ints, "
     "tuples and unhashable lists with key function it[0], keyed spec items, int-keyed items, typed KeyedList[T,K]); "
@@ -814,12 +814,60 @@ def run_keyfaults(ctx, U, probes, params):
                                   features={"universe": U.name, "op": nm, "failure": "key_function", "invocation": min(k, 2), "n": len(combo)}, case=[U.name, "keyfault", list(combo), oi, k])
 
 
+def judge_iteration_under_mutation(ctx, U):
+    """Forward and reverse iteration interleaved with operations that shrink or grow the container behave as on a plain
+    list holding the same items (what is yielded, and how the iteration ends)."""
+    items = [U.make(s) for s in U.specs]
+    distinct, seen = [], set()
+    for it in items:
+        if U.kf(it) not in seen:
+            seen.add(U.kf(it))
+            distinct.append(it)
+    distinct = distinct[:4]
+    extra = distinct[-1]
+    base = distinct[:-1]
+    actions = {
+        "clear": lambda c: c.clear(),
+        "pop": lambda c: c.pop() if len(c) else None,
+        "pop0": lambda c: c.pop(0) if len(c) else None,
+        "del_last": lambda c: c.__delitem__(-1) if len(c) else None,
+        "append_once": lambda c: c.append(extra) if extra not in c else None,
+        "nothing": lambda c: None,
+    }
+    for direction in ("forward", "reverse"):
+        for aname, act in actions.items():
+            for when in (0, 1):
+                ctx.count("ops_judged")
+                ctx.count("iteration_under_mutation_cases")
+
+                def drive(c):
+                    out = []
+                    try:
+                        for i, x in enumerate(reversed(c) if direction == "reverse" else iter(c)):
+                            out.append(id(x))
+                            if i == when:
+                                act(c)
+                        return ("ok", out, [id(x) for x in c])
+                    except Exception as e:
+                        return ("exc", type(e).__name__, out)
+
+                want = drive(list(base))
+                got = drive(U.new_container(list(base)))
+                ctx.sig("iteration_under_mutation", direction, aname, when, want[0])
+                if got != want:
+                    ctx.violation("view_vs_model", f"{U.name}: {direction} iteration over {len(base)} items with {aname} after element #{when}: "
+                                  f"{'raises ' + got[1] if got[0] == 'exc' else 'yields %d item(s), leaves %d' % (len(got[1]), len(got[2]))}; a plain list "
+                                  f"{'raises ' + want[1] if want[0] == 'exc' else 'yields %d item(s), leaves %d' % (len(want[1]), len(want[2]))}",
+                                  features={"op": "iterate", "direction": direction, "action": aname, "universe": U.name}, case=["iteration", U.name, direction, aname, when])
+
+
 def run(ctx, params):
     U = Universe(params["universe"])
     rng = ctx.rng
     mode = params["mode"]
     probes = make_probes(U)
     if mode == "keyfaults":
+        judge_iteration_under_mutation(ctx, U)
         return run_keyfaults(ctx, U, probes, params)
     if mode == "exh" and params.get("part", 0) == 0 and params["depth"] == 1 or (mode == "exh" and params.get("part", 0) == 0 and params.get("parts")):
         judge_constructions(ctx, U, probes)
